@@ -57,6 +57,9 @@ ALNS = {
     "gap": {"a": "ACG-TACGATT-GACCATGA", "b": "ACGATAC-ATTCGATCAT-A", "c": "AC-ATGCGACTCG-TCATGA",
             "d": "TCGAT-CGATTCGACC-TGA", "e": "ACGGTACG-TTC-ACCATAA"},
 }
+# the three sequences differ by transitions only: kappa-like parameters want to be as large as their bound allows
+TS_ONLY = {"a": "ACGTACGTACGTACGTACGTACGTACGTACGTACGTACGT", "b": "GCGTACATACGCACGTGCGTACGTATGTACGTACGTACGC",
+           "c": "ACATACGTACGTATGTACGTGCGTACGTACGCACGTACGT"}
 CODON_ALN = {"a": "ATGCGTATTACGAACGTTGCAACG", "b": "ATGCGAATCACGTACGATGCAATG", "c": "ATGTCACCTCGAACGTTGAAACGA"}
 
 # published nesting of the nucleotide families (transitively closed below).  JC69/K80 have equal frequencies.
@@ -181,6 +184,13 @@ def apply_state(lf, state, omp_free):
     elif kind == "values":
         set_random_state(lf, state["seed"], omp_free)
     elif kind == "rules":
+        for r in state["rules"]:
+            lf.set_param_rule(**r)
+    elif kind == "on_bound":
+        if state.get("prefit"):        # sensible branch lengths first, the rate parameters held at the bound
+            for r in state["rules"]:
+                lf.set_param_rule(par_name=r["par_name"], is_constant=True, value=r["init"])
+            lf.optimise(show_progress=False, local=True, max_evaluations=200, limit_action="ignore")
         for r in state["rules"]:
             lf.set_param_rule(**r)
     else:
@@ -529,6 +539,19 @@ def gen_optimise(tier, seed):
                      {"kind": "opt", "evals": 40, "local": None, "seed": 11, "name": "prefit-global40"}][k % 3]
             yield {"model": {"sm": sm, "omp": bool(k % 2), "rules": scope_rules(sm, scope, 2.0) + length_rules(("free", "eq", "clock_ab")[k % 3])},
                    "tree": TREES[tree], "seqs": seqs_for("amb", tree), "start": start, "opt": opt}
+    # starts exactly ON a declared bound, with data that push the parameter outward (the situation of an alternative
+    # hypothesis initialised from a null in which the parameter was a constant equal to the alternative's bound); bounds
+    # 3, 10, 30, 100 are those where exp(log(bound)) exceeds the bound by an ulp
+    for sm, u in itertools.product(("HKY85", "K80", "TN93", "GTR"), (3.0, 10.0, 30.0, 100.0, 50.0)):
+        if not thorough and (sm, u) not in (("HKY85", 10.0), ("HKY85", 100.0), ("K80", 3.0), ("TN93", 30.0), ("GTR", 10.0), ("HKY85", 50.0)):
+            continue
+        rules = [{"par_name": p, "init": u, "lower": 1e-6, "upper": u} for p in rate_names(sm)]
+        for opt in ({"local": True, "max_evaluations": None, "tolerance": 1e-6, "max_restarts": 2},
+                    {"local": True, "max_evaluations": 50}, {"local": None, "max_evaluations": 400, "seed": 3}):
+            for prefit in (False, True):
+                yield {"model": {"sm": sm, "omp": False, "rules": []}, "tree": TREES["t3"], "seqs": TS_ONLY,
+                       "start": {"kind": "on_bound", "rules": rules, "prefit": prefit, "name": f"on_upper_{u:g}" + ("_prefit" if prefit else "")},
+                       "opt": opt}
     # codon family (few)
     for k, opt in enumerate([{"local": True, "max_evaluations": 1}, {"local": True, "max_evaluations": 12},
                              {"local": None, "max_evaluations": 12, "seed": 1}, {"local": False, "max_evaluations": 8, "seed": 2}]):
